@@ -42,6 +42,7 @@ func (x *Exec) evalArgs(args []*cfront.Node, st *State) []argRow {
 func (x *Exec) event(st *State, ev Event) {
 	ev.Looked = lookedKeys(st)
 	ev.Func = x.stack[len(x.stack)-1]
+	ev.Stack = append([]string(nil), x.stack...)
 	ev.NAtoms = len(st.Atoms)
 	x.Events = append(x.Events, ev)
 	if x.Mode == Paths {
